@@ -270,6 +270,105 @@ def cells_on_side(i, v, direction):
     return out
 
 
+# --------------------------------------------------------------------------------------------
+# the shading lemmas themselves, stated on the box grid for each of the four corners / sides
+# (Hilmarsson, Jonsdottir, Sigurdardottir, Vidarsdottir, Ulfarsson 2015, Lemma "Shading Lemma";
+# Claesson, Tenner, Ulfarsson 2017, "Simultaneous Shading Lemma").  Both are theorems, and the
+# mirrored statements are theorems because containment is invariant under the symmetries of the
+# square; so a shading they license is sound for every horizon.  They are NOT complete: a shading
+# they do not license may still be sound, which is why the checks never demand these answers but
+# only use them to skip the containment search.  Polynomial in the length of the pattern.
+# --------------------------------------------------------------------------------------------
+
+def _cell_from(px, py, sx, sy):
+    """The cell touching grid crossing (px, py) in quadrant (sx, sy)."""
+    return (px if sx > 0 else px - 1, py if sy > 0 else py - 1)
+
+
+def ref_lemma_points(patt, shading, cell):
+    """Values of the pattern points through which the shading lemma licenses shading `cell`."""
+    k = len(patt)
+    out = []
+    if cell in shading:
+        return out
+    for i, v in enumerate(patt):
+        px, py = i + 1, v + 1
+        for sx, sy in ((1, 1), (-1, 1), (-1, -1), (1, -1)):
+            if _cell_from(px, py, sx, sy) != cell:
+                continue
+            # the box diagonally opposite (across the point) is not shaded
+            if _cell_from(px, py, -sx, -sy) in shading:
+                continue
+            # at most one of the two other boxes around the point is shaded
+            if _cell_from(px, py, sx, -sy) in shading and _cell_from(px, py, -sx, sy) in shading:
+                continue
+            # along the horizontal line through the point (away from the point): a shaded box on
+            # the far side of the line has its partner on the cell's side shaded
+            near_row, far_row = cell[1], (py - 1 if sy > 0 else py)
+            if any((l, far_row) in shading and (l, near_row) not in shading
+                   for l in range(k + 1) if l not in (px - 1, px)):
+                continue
+            # the same along the vertical line through the point
+            near_col, far_col = cell[0], (px - 1 if sx > 0 else px)
+            if any((far_col, l) in shading and (near_col, l) not in shading
+                   for l in range(k + 1) if l not in (py - 1, py)):
+                continue
+            out.append(v)
+    return out
+
+
+def ref_simul_points(patt, shading, c1, c2):
+    """Values of the pattern points through which the simultaneous shading lemma licenses shading
+    the two adjacent cells c1, c2 (the point sits in the middle of a long side of the domino)."""
+    k = len(patt)
+    out = []
+    if c1 in shading or c2 in shading or abs(c1[0] - c2[0]) + abs(c1[1] - c2[1]) != 1:
+        return out
+    common = cell_corners(c1) & cell_corners(c2)
+    for i, v in enumerate(patt):
+        px, py = i + 1, v + 1
+        if (px, py) not in common:
+            continue
+        if c1[0] == c2[0]:
+            # vertical domino in column a, rows py-1 and py; the other side is column oc
+            a = c1[0]
+            oc = px - 1 if a == px else px
+            rows = (py - 1, py)
+            if (oc, rows[0]) in shading or (oc, rows[1]) in shading:
+                continue
+            if any((oc, l) in shading and (a, l) not in shading for l in range(k + 1) if l not in rows):
+                continue
+            if any(((l, rows[0]) in shading) != ((l, rows[1]) in shading)
+                   for l in range(k + 1) if l not in (px - 1, px)):
+                continue
+        else:
+            # horizontal domino in row b, columns px-1 and px; the other side is row orow
+            b = c1[1]
+            orow = py - 1 if b == py else py
+            cols = (px - 1, px)
+            if (cols[0], orow) in shading or (cols[1], orow) in shading:
+                continue
+            if any((l, orow) in shading and (l, b) not in shading for l in range(k + 1) if l not in cols):
+                continue
+            if any(((cols[0], l) in shading) != ((cols[1], l) in shading)
+                   for l in range(k + 1) if l not in (py - 1, py)):
+                continue
+        out.append(v)
+    return out
+
+
+def point_dominoes(patt):
+    """Unordered adjacent cell pairs that have a pattern point in the middle of a long side."""
+    out = set()
+    for i, v in enumerate(patt):
+        px, py = i + 1, v + 1
+        for a in (px - 1, px):
+            out.add(((a, py - 1), (a, py)))
+        for b in (py - 1, py):
+            out.add(((px - 1, b), (px, b)))
+    return sorted(out)
+
+
 def ref_is_shaded_rect(shading, ll, ur):
     return all((x, y) in shading for x in range(ll[0], ur[0] + 1) for y in range(ll[1], ur[1] + 1))
 
